@@ -1,4 +1,5 @@
 import LokyModel.Lemmas.ExecLiveKBool
+import LokyModel.Lemmas.ExecStickyKill
 import LokyModel.Props.C02Live
 /-!
 # C06, liveness half — `shutdown(kill_workers=True)` never hangs: deadlock freedom of static pools with forced shutdowns
@@ -152,6 +153,26 @@ theorem C06_kill_seen_step (s0 s1 : St) (hm : s0.mpc = .flagRel) (hk : s0.killFl
   rw [← hs]
   unfold mAfterFlag
   exact if_pos hk
+
+/-! ### the kill request is sticky (`kill_workers = kill_workers or …`): no later call withdraws it -/
+
+/-- the recorded kill request survives every lock-free crash run -/
+theorem killFlag_stepsLF {s t : St} (h : StepsLF s t) (hk : s.killFlag = true) : t.killFlag = true := by
+  induction h with
+  | refl => exact hk
+  | step _ _ hs ih => exact stickyKill_step hs ih
+  | crash _ _ hs ih => exact stickyKill_step hs ih
+
+/-- **a kill request issued at any time before the manager reads the flag kills every worker**: let `kill_workers` be
+    recorded in some state `s` of a lock-free crash run — whatever `shutdown(kill_workers=False)` calls, garbage collection
+    of the executor or interpreter exit follow — and let the manager thread later leave the lock section of
+    `flag_executor_shutting_down` (state `s0`).  Then the conclusions of `C06_all_dead_when_manager_ends` hold of the rest
+    of the run. -/
+theorem C06_kill_request_all_dead_when_manager_ends (cfg : Cfg) (hc : cfg.staticPoolK = true) (s s0 s1 s2 : St)
+    (h : ReachableLF cfg s) (hk : s.killFlag = true) (hrun0 : StepsLF s s0) (hm : s0.mpc = .flagRel)
+    (h1 : step s0 .M .ok = some s1) (hrun : StepsLF s1 s2) :
+    mK2 s2.mpc = true ∧ (mEnded s2 = true → (∀ p ∈ s2.allPids, s2.w p = .dead) ∧ s2.pending = []) :=
+  C06_all_dead_when_manager_ends cfg hc s0 s1 s2 (reachableLF_of_stepsLF h hrun0) hm (killFlag_stepsLF hrun0 hk) h1 hrun
 
 /-! ### non-vacuity: a forced shutdown while a task body is running and while the other worker holds the queue's lock -/
 
